@@ -183,7 +183,19 @@ func LibEncode(v *Value) (out []byte, obj any, err error, panicked any) {
 	out2 := append([]byte{}, recycledBuf.Bytes()[min(skip, recycledBuf.Len()):]...)
 	scribble(&recycledBuf)
 	if pan2 != nil || err2 != nil || !bytes.Equal(out, out2) {
-		Col.Class("encode differs in a recycled buffer", 1)
+		Col.Class("two encodes of one value differ (fresh vs recycled buffer)", 1)
+		// two encodes of one value disagree: hand the caller the odd one, so that its own oracle judges it. Which one is
+		// odd is decided by the interpreter's rendering where it has one (selection only; nothing is judged here).
+		oddIsFresh := false
+		if pan2 == nil && err2 == nil {
+			if r := Render(v, nil); !r.MustError && !r.MayError && bytes.Equal(out2, r.Bytes) && !bytes.Equal(out, r.Bytes) {
+				oddIsFresh = true
+			}
+		}
+		if oddIsFresh {
+			encodeNote = fmt.Sprintf("[the same value encoded again into a recycled buffer gives %d bytes instead of these %d, first difference at %d: encoding is not repeatable]", len(out2), len(out), firstDiff(out, out2))
+			return out, obj, err, panicked
+		}
 		encodeNote = fmt.Sprintf("[the bytes judged here were encoded into a recycled buffer (used before, Reset, spare capacity holding earlier bytes%s); into a fresh buffer the same value gives %d bytes, first difference at %d, err=%v panic=%v]", map[int]string{0: "", 1: ", one unread byte in front"}[skip], len(out), firstDiff(out, out2), err2, pan2)
 		return out2, obj2, err2, pan2
 	}
